@@ -174,3 +174,53 @@ func init() {
 		ex.setBool("c05ForgetDeferred", okF, lz != nil, "doLazyUpdate: `defer c.lazyUpdateSF.Forget(msgKey)` inside the function given to DoChan")
 	})
 }
+
+func init() {
+	factFuncs = append(factFuncs, func(ex *factExtractor) {
+		const rel = "pkg/dnsutils/msg.go"
+		ok := true
+		for _, name := range []string{"GetMinimalTTL", "SubtractTTL", "SetTTL"} {
+			fd := ex.fn(rel, "", name)
+			if fd == nil {
+				ok = false
+				continue
+			}
+			var outer, inner *ast.RangeStmt
+			nRange := 0
+			ast.Inspect(fd.Body, func(n ast.Node) bool {
+				if r, isR := n.(*ast.RangeStmt); isR {
+					nRange++
+					if outer == nil {
+						outer = r
+					} else {
+						inner = r
+					}
+				}
+				return true
+			})
+			if nRange != 2 || outer == nil || inner == nil || ex.str(outer.X) != "[...][]dns.RR{m.Answer, m.Ns, m.Extra}" || ex.str(outer.Value) != "section" ||
+				ex.str(inner.X) != "section" || ex.str(inner.Value) != "rr" || len(outer.Body.List) != 1 || outer.Body.List[0] != ast.Stmt(inner) {
+				ok = false
+			}
+			switch name {
+			case "GetMinimalTTL":
+				l := fd.Body.List
+				if len(l) != 5 || ex.str(l[0]) != "minTTL := ^uint32(0)" || ex.str(l[1]) != "hasRecord := false" || l[2] != ast.Stmt(outer) ||
+					ex.str(l[3]) != "if !hasRecord { return 0 }" || ex.str(l[4]) != "return minTTL" {
+					ok = false
+				}
+			case "SubtractTTL":
+				l := fd.Body.List
+				if len(l) != 2 || l[0] != ast.Stmt(outer) || ex.str(l[1]) != "return" {
+					ok = false
+				}
+			case "SetTTL":
+				if len(fd.Body.List) != 1 {
+					ok = false
+				}
+			}
+		}
+		ex.setBool("c05TtlHelpersVisitEveryRecordOnce", ok, true,
+			"GetMinimalTTL / SubtractTTL / SetTTL: one pass over Answer, Ns, Extra and over every record of each (the per-record bodies are translated by T1); GetMinimalTTL starts from (false, max uint32) and returns 0 when no record counted")
+	})
+}
